@@ -21,7 +21,7 @@ from vf.core.canon import wellformed, canon, PLACEHOLDER_RE
 LEVEL = "exploration"
 RULE = ("inputs: G1 token soups (1-60 tokens over every token_list alternative, every allowed HTML tag in 11 spellings, "
         "magic words, URL schemes, include/nowiki/pre/comment tags, bidi/control/placeholder chars), G2 block/inline grammar "
-        "documents, G3 token-boundary mutations and splices of the real pages under tests/, G4 nesting-depth stress 1..100; "
+        "documents, G3 token-boundary mutations and splices of the real pages under tests/, G4 nesting-depth stress 1..100, G5 template/parser-function call shapes (names x argument atoms incl. empty, numeric-named, duplicated numbers); "
         "each under plain / pre_expand / expand_all with a 12-template library that emits unbalanced markup. "
         "non-trivial = distinct input whose tree has >=3 node kinds or produced >=1 parser debug message (auto-closed node)")
 ASSUMPTIONS = [
@@ -36,7 +36,7 @@ MODES = [{}, {"pre_expand": True}, {"expand_all": True}]
 
 def floors(tier):
     return {"oracle.parse.post": 1000, "oracle.walker": 1000, "counters.gen.G1": 1, "counters.gen.G3": 1,
-            "counters.gen.G4": 1, "counters.gen.G2": 1, "sets.handlers": 20}
+            "counters.gen.G4": 1, "counters.gen.G2": 1, "counters.gen.G5": 1, "sets.handlers": 20}
 
 
 def shards(tier, seed):
@@ -106,6 +106,24 @@ def mutate(rng, pages):
 OPENERS = [("{{", "}}"), ("{{{", "}}}"), ("[[", "]]"), ("[", "]"), ("<div>", "</div>"), ("''", "''"), ("'''", "'''"),
            ("{|\n|", "\n|}"), ("<span>", "</span>"), ("<ref>", "</ref>"), ("{{#if:x|", "}}"), ("[http://x ", "]"),
            ("<i>", "</i>"), ("-{", "}-")]
+
+
+CALL_NAMES = ["t", "ta", "PAGENAME", "#if", "lc", "#invoke", "#switch", "NAMESPACE", " t ", "T:x", "Template:ta", "{{ta}}", "subst:ta",
+              "#expr", ""]
+CALL_ATOMS = ["", "a", " a ", "\na", "a\nb", "k=v", " k = v ", "k=", "=v", "=", "1=x", "2=y", "01=z", "0=w", "1=", "-1=q", "a=b=c", "{{ta}}",
+              "{{{1}}}", "[[l|m]]", "<nowiki>|</nowiki>", "x{{!}}y", "1={{ta|2=}}", "²=s", "k k=v", "<b>=v", "''i''"]
+
+
+def call_case(rng):
+    """G5: template / parser-function call shapes (name x argument atoms incl. empty, numeric-named, duplicated numbers)."""
+    def one(d):
+        name = rng.choice(CALL_NAMES)
+        args = [rng.choice(CALL_ATOMS) if d <= 0 or rng.random() < 0.85 else one(d - 1) for _ in range(rng.randint(0, 5))]
+        sep = ":" if name.startswith("#") or rng.random() < 0.1 else "|"
+        body = name + (sep + "|".join(args) if args else "")
+        br = rng.choice([("{{", "}}"), ("{{{", "}}}"), ("{{", "}"), ("{", "}}")]) if rng.random() < 0.2 else ("{{", "}}")
+        return br[0] + body + br[1]
+    return rng.choice(["", "x ", "* ", "{|\n| ", "== "]) + " ".join(one(2) for _ in range(rng.randint(1, 3)))
 
 
 def depth_case(rng):
@@ -249,9 +267,12 @@ def run_shard(spec):
         elif r < 9 and pages:
             text = mutate(rng, pages)
             gen = "G3"
-        else:
+        elif i % 20 == 9:
             text = depth_case(rng)
             gen = "G4"
+        else:
+            text = call_case(rng)
+            gen = "G5"
         run_case(mon, obs, text, mode, gen)
         if i % 25 == 0:
             for sig, msg in mon.probe_state(mode):
